@@ -13,6 +13,7 @@
 package c07
 
 import (
+	"strconv"
 	"bytes"
 	"crypto/sha256"
 	"errors"
@@ -100,6 +101,9 @@ type job struct {
 	DataHex string `json:"data,omitempty"`
 	EncHex  string `json:"enc,omitempty"`
 	Level   int    `json:"level,omitempty"`
+	// Src (dec): how the encoded bytes reach the decoder: "" all at once,
+	// "onebyte" one byte per Read, "split:N" two reads cut at offset N
+	Src string `json:"src,omitempty"`
 
 	data, enc []byte
 }
@@ -186,7 +190,35 @@ func libEncode(f pdf.Filter, data []byte) ([]byte, error) {
 
 // libDecode runs the library's decoder, rebuilt from name and dictionary.
 func libDecode(f pdf.Filter, enc []byte) ([]byte, error) {
-	return withWatchdog(func() ([]byte, error) { return libDecode1(f, enc) })
+	return withWatchdog(func() ([]byte, error) { return libDecode1(f, enc, "") })
+}
+
+// libDecodeSrc is libDecode with a source that delivers the bytes in pieces.
+func libDecodeSrc(f pdf.Filter, enc []byte, src string) ([]byte, error) {
+	return withWatchdog(func() ([]byte, error) { return libDecode1(f, enc, src) })
+}
+
+type oneByteReader struct{ r io.Reader }
+
+func (o oneByteReader) Read(p []byte) (int, error) {
+	if len(p) == 0 {
+		return 0, nil
+	}
+	return o.r.Read(p[:1])
+}
+
+func sourceOf(enc []byte, src string) io.Reader {
+	switch {
+	case src == "onebyte":
+		return oneByteReader{bytes.NewReader(enc)}
+	case strings.HasPrefix(src, "split:"):
+		n, _ := strconv.Atoi(src[6:])
+		if n < 0 || n > len(enc) {
+			n = len(enc) / 2
+		}
+		return io.MultiReader(bytes.NewReader(enc[:n]), bytes.NewReader(enc[n:]))
+	}
+	return bytes.NewReader(enc)
 }
 
 func libEncode1(f pdf.Filter, data []byte) (enc []byte, err error) {
@@ -209,7 +241,7 @@ func libEncode1(f pdf.Filter, data []byte) (enc []byte, err error) {
 	return buf.Bytes(), nil
 }
 
-func libDecode1(f pdf.Filter, enc []byte) (out []byte, err error) {
+func libDecode1(f pdf.Filter, enc []byte, src string) (out []byte, err error) {
 	defer func() {
 		if p := recover(); p != nil {
 			err = fmt.Errorf("panic: %v", p)
@@ -223,7 +255,7 @@ func libDecode1(f pdf.Filter, enc []byte) (out []byte, err error) {
 	if err != nil {
 		return nil, err
 	}
-	r, err := f2.Decode(pdf.V1_7, bytes.NewReader(enc), membudget.New(256<<20))
+	r, err := f2.Decode(pdf.V1_7, sourceOf(enc, src), membudget.New(256<<20))
 	if err != nil {
 		return nil, err
 	}
